@@ -1,26 +1,10 @@
-"""Per-property configuration of the check orchestrator."""
+"""Per-property configuration: one JSON file per claimed property under /verif/props/."""
+import glob, json, os
 
-PROPS = {
-    "C16": {
-        "harness": "c16",
-        "rule": ("limit: N in -1..16 x source length 0..N+3 x ALL compositions of the source into chunks up to "
-                 "length 5 (quick) / 12 (thorough), sampled above, x 5 reader styles (EOF alone, EOF with last data, "
-                 "zero-length reads, failure, zero+EOF-with-data) x consumers (Read loop with random sizes, 1-byte "
-                 "loop, io.ReadAll, io.Copy); multi: 0..4 sources; tee: writer budgets. A case is non-trivial when "
-                 "the source data is non-empty; distinct = distinct (limit, length, script shape, consumer) class."),
-        "level_text": ("Kernel-checked theorems over ALL limits, read scripts (chunkings, zero-length reads, data-with-EOF, "
-                       "failures) and consumer buffer-size sequences for line-by-line models of the three wrappers; the "
-                       "models are tied to the Go code by running both on thousands of scripts per run (incl. every "
-                       "composition of short sources) and the spec oracle (proved equivalent to the spec predicate) is "
-                       "evaluated on what the implementation did."),
-        "level_note": ("Trusted: Coq kernel; hand-written model (fidelity bounded by the differential run, not proved); "
-                       "Go harness and scripted reader; io.ReadAll/io.Copy/io.CopyBuffer behaviour as documented. "
-                       "Not modelled: http.ErrBodyReadAfterClose branch, concurrent use of TeeReadCloser."),
-        "technique": "Coq: induction over read scripts with a loop rule for the consumer; correspondence by vm_compute on harness-recorded cases",
-        "assumptions": ["scripted sources obey the io.Reader contract (Lib/Reader.v)",
-                        "http.ErrBodyReadAfterClose path of MultiReaderCloser not modelled"],
-    },
-}
+ROOT = os.path.dirname(os.path.dirname(os.path.abspath(__file__)))
+PROPS = {}
+for _p in sorted(glob.glob(os.path.join(ROOT, "props", "C*.json"))):
+    PROPS[os.path.basename(_p)[:-5]] = json.load(open(_p))
 
 # properties not claimed (reason shown in MANIFEST.not_applicable)
 NOT_APPLICABLE = {}
